@@ -1,8 +1,15 @@
-"""Engine K: Kani in place on a scratch copy of /repo's working tree (leaf functions only)."""
+"""Engine K: Kani on a scratch copy of /repo's working tree (leaf functions only; loop-free, full finite domain)."""
 import json
 import os
+import re
+import shutil
+import signal
+import subprocess
+import time
 
 HERE = os.path.dirname(os.path.abspath(__file__))
+REPO = os.environ.get("VERIF_REPO", "/repo")
+MEM_LIMIT_KB = 24 * 1024 * 1024
 
 
 def registry():
@@ -18,4 +25,73 @@ def harnesses_for(prop):
 
 
 def run(prop, harnesses, scratch, tier):
-    raise NotImplementedError
+    """copies the working tree (no target/, no .git), runs `cargo kani` once for all harnesses of the property"""
+    from runner import Undecided
+    t0 = time.time()
+    dst = os.path.join(scratch, "kani-repo")
+    r = subprocess.run(["rsync", "-a", "--exclude", "target", "--exclude", ".git", REPO + "/", dst + "/"], capture_output=True, text=True)
+    if r.returncode != 0:
+        raise Undecided("kani: rsync failed: " + r.stderr[-300:])
+    env = dict(os.environ)
+    env["CARGO_NET_OFFLINE"] = "true"
+    env["CARGO_TARGET_DIR"] = os.path.join(scratch, "kani-target")
+    cmd = ["cargo", "kani", "--features", "verif-kani", "-Z", "function-contracts", "-Z", "concrete-playback", "--concrete-playback=print"]
+    for h in harnesses:
+        cmd += ["--harness", harnesses[h]["path"]]
+    log = os.path.join(scratch, "kani.log")
+    with open(log, "w") as lf:
+        p = subprocess.Popen(["bash", "-c", "ulimit -v %d; exec \"$@\"" % MEM_LIMIT_KB, "bash"] + cmd, cwd=dst, env=env,
+                             stdout=lf, stderr=subprocess.STDOUT, start_new_session=True)
+        try:
+            p.wait(timeout=int(os.environ.get("VERIF_KANI_TIMEOUT", "1500")))
+        except subprocess.TimeoutExpired:
+            os.killpg(p.pid, signal.SIGKILL)
+            p.wait()
+            raise Undecided("kani: timeout")
+        finally:
+            try:
+                os.killpg(p.pid, signal.SIGKILL)  # cbmc children survive their parent
+            except ProcessLookupError:
+                pass
+    text = open(log, errors="replace").read()
+    res = {"cmd": "(scratch copy of /repo) " + " ".join(cmd), "harnesses": {}, "wall_s": round(time.time() - t0, 1)}
+    # split per harness
+    chunks = re.split(r"Checking harness ", text)
+    seen = {}
+    for ch in chunks[1:]:
+        name = ch.split("...")[0].strip()
+        seen[name] = ch
+    if not seen:
+        raise Undecided("kani produced no harness results (build failure / ICE): " + text[-600:].replace("\n", " | "))
+    for h, d in harnesses.items():
+        ch = seen.get(d["path"]) or next((c for n, c in seen.items() if n.endswith(h)), None)
+        hr = {"obligation": d["obligation"], "clause": d["clause"], "props": d["props"]}
+        if ch is None:
+            hr["status"] = "MISSING"
+            hr["log"] = ""
+        else:
+            m = re.search(r"VERIFICATION:- (SUCCESSFUL|FAILED)", ch)
+            failed_checks = re.findall(r"Failed Checks: (.*)", ch)
+            unwind = [f for f in failed_checks if "unwinding assertion" in f]
+            if d.get("cover"):
+                unsat = re.findall(r"Status: (UNSATISFIABLE|UNREACHABLE)", ch)
+                hr["status"] = "SUCCESS" if (m and m.group(1) == "SUCCESSFUL" and not unsat) else "VACUOUS"
+            elif not m:
+                hr["status"] = "NO-VERDICT"
+            elif m.group(1) == "SUCCESSFUL":
+                hr["status"] = "SUCCESS"
+            elif unwind and len(unwind) == len(failed_checks):
+                hr["status"] = "UNWIND"
+            else:
+                hr["status"] = "FAILURE"
+            hr["failed_checks"] = failed_checks
+            # counterexample: concrete-playback prints the byte vectors of every kani::any() in order
+            cex = re.findall(r"vec!\[([0-9, ]*)\]", ch)
+            if cex:
+                hr["cex"] = [[int(x) for x in v.split(",") if x.strip()] for v in cex]
+            hr["log"] = "Checking harness " + ch[-3500:]
+            mt = re.search(r"Verification Time: ([0-9.]+)s", ch)
+            hr["solver_s"] = float(mt.group(1)) if mt else None
+            hr["checks"] = len(re.findall(r"^Check \d+:", ch, re.M))
+        res["harnesses"][h] = hr
+    return res
